@@ -7,6 +7,7 @@
 #include <tulz/observer/Observable.h>
 
 #include <cmath>
+#include <typeinfo>
 #include <memory>
 
 using namespace tulz;
@@ -45,7 +46,8 @@ template<class T> bool bitEqual(const T &a, const T &b) {
 
 template<class T, class Eq, bool kDefaultEq>
 struct Runner {
-    using Obs = Observable<T, Eq>;
+    // default equality is taken from the library's own default template argument, not spelled out here
+    using Obs = std::conditional_t<kDefaultEq, Observable<T>, Observable<T, Eq>>;
     static constexpr bool kString = std::is_same_v<T, std::string>;
     static constexpr bool kFloat = std::is_floating_point_v<T>;
 
@@ -79,6 +81,8 @@ struct Runner {
             static const char *w[] = {"", "a", "b", "ab", "a-string-that-does-not-fit-the-small-buffer-optimisation", "zz"};
             return w[rng.below(6)];
         } else if constexpr (kFloat) {
+            // sometimes a magnitude at which +1 / -1 is absorbed by rounding (float: 2^24, double: 2^53)
+            if (rng.chance(60)) return (T) (std::is_same_v<T, float> ? 16777216.0 : 9007199254740992.0) * (rng.chance(500) ? 1 : -1);
             // values close to each other so that the tolerance comparator is exercised on both sides
             return (T) (rng.range(-8, 8) * 0.25 + (rng.chance(300) ? 0.125 : 0.0));
         } else return (T) rng.range(-6, 6);
@@ -123,6 +127,15 @@ struct Runner {
         }
     }
 
+    template<class V> void assignOther(V v) {
+        T conv = static_cast<T>(v);
+        bool ch = !eq(model, conv);
+        log("=(" + std::string(typeid(V).name()) + ")" + show((double) v));
+        *obs = v;
+        if (ch) model = conv;
+        endOp(ch);
+    }
+
     void subscribe(int i) {
         SubRec &s = subs[i];
         beginOp("subscribe");
@@ -151,7 +164,8 @@ struct Runner {
 
     void keepInRange() {
         if constexpr (!kString) {
-            if (std::fabs((double) model) > 1e5 || (kFloat && std::fabs((double) model) < 1e-4 && model != 0)) {
+            const double limit = kFloat ? 1e17 : 1e5;   // integers must stay clear of overflow; floats may sit where +1 is absorbed
+            if (std::fabs((double) model) > limit || (kFloat && std::fabs((double) model) < 1e-4 && model != 0)) {
                 T v = randomValue();
                 bool ch = !eq(model, v);
                 beginOp("assign");
@@ -186,6 +200,29 @@ struct Runner {
             endOp(ch);
             return;
         }
+        if constexpr (!kString) {
+            if (in(70)) {
+                // assignment from another arithmetic type: the decision is made on the value converted to T
+                unsigned k = (unsigned) rng.below(4);
+                beginOp("assign-other-type");
+                if (k == 0) { double v = (double) model + (rng.chance(500) ? 0.5 : 0.0) + (rng.chance(300) ? 1.0 : 0.0); assignOther(v); }
+                else if (k == 1) { float v = rng.chance(500) ? (float) model : 0.1f * (float) rng.range(-9, 9); assignOther(v); }
+                else if (k == 2) { long long v = rng.chance(500) ? (long long) model : rng.range(-6, 6); assignOther(v); }
+                else { short v = (short) rng.range(-6, 6); assignOther(v); }
+                return;
+            }
+        } else {
+            if (in(70)) {
+                beginOp("assign-other-type");
+                const char *lit = rng.chance(500) ? "ab" : "";
+                bool ch = !eq(model, std::string(lit));
+                log(std::string("=lit'") + lit + "'");
+                *obs = lit;
+                if (ch) model = lit;
+                endOp(ch);
+                return;
+            }
+        }
         if (in(130)) {
             T old = model;
             T add = operand(false);
@@ -211,7 +248,12 @@ struct Runner {
 
     void run(int steps) {
         model = randomValue();
-        if constexpr (std::is_same_v<Eq, Tol>) obs.reset(new Obs(model, Tol{0.5}));
+        if constexpr (std::is_same_v<Eq, Tol>) {
+            // a tolerance below and one above the step of ++/--: "increment and decrement always notify"
+            eq = Tol{rng.chance(500) ? 0.5 : 2.5};
+            obs.reset(new Obs(model, eq));
+            log(eq.eps > 1 ? "eps2.5" : "eps0.5");
+        }
         else obs.reset(new Obs(model));
         log("init" + show(model));
         for (int st = 0; st < steps && !gCaseFailed; ++st) {
